@@ -99,7 +99,7 @@ func (e *Engine) xlog(st *State, method string) spec.LogVal {
 		st.xm = map[string]spec.LogVal{}
 	}
 	base := fmt.Sprintf("xm_%s_g%d", strings.NewReplacer(".", "_", "-", "_").Replace(method), st.xgen)
-	e.extraFn["xm:"+base] = fmt.Sprintf("(declare-const %s Int)\n(declare-fun at_%s (Int) Event)", base, base)
+	e.extraFn["xm:"+base] = fmt.Sprintf("(declare-const %s Int)\n(declare-fun at_%s (Int) GhostEv)", base, base)
 	l := spec.LogVal{Base: base}
 	st.xm[method] = l
 	return l
@@ -178,8 +178,7 @@ func init() {
 func New(pkgs []*packages.Package) *Engine {
 	e := &Engine{Pkgs: map[string]*packages.Package{}, funcs: map[*types.Func]*ast.FuncDecl{}, fpkg: map[*types.Func]*packages.Package{},
 		Specs: map[string]*spec.File{}, Structs: map[string][]spec.Field{}, Lists: map[string]spec.Type{}, stypes: map[string]types.Type{}, globals: map[types.Object]Val{}, extraFn: map[string]string{}, ufSig: map[string]string{}, unmodelled: map[string]int{}, writes: map[*types.Func]bool{}, logs: map[*types.Func]bool{}}
-	spec.Declare = func(key, decl string) { e.extraFn[key] = decl }
-	spec.NeedList = func(elem spec.Type) { e.listOf(elem) }
+	e.bind()
 	for _, p := range pkgs {
 		e.Pkgs[p.PkgPath] = p
 		for _, f := range p.Syntax {
@@ -193,6 +192,12 @@ func New(pkgs []*packages.Package) *Engine {
 		}
 	}
 	return e
+}
+
+// bind routes the declarations requested by the contract translator to this engine.
+func (e *Engine) bind() {
+	spec.Declare = func(key, decl string) { e.extraFn[key] = decl }
+	spec.NeedList = func(elem spec.Type) { e.listOf(elem) }
 }
 
 func (e *Engine) nextGen() int {
@@ -328,8 +333,8 @@ func (e *Engine) Prelude(sp *spec.File) (decls []string, quants []smt.Quant) {
 	)
 	quants = append(quants, smt.Quant{Name: "b2i-i2b", Vars: []smt.Var{{Name: "x", Sort: "Int"}},
 		Body: sx.MustParse1("(= (b2i (i2b x)) x)"), Pats: [][]*sx.T{{sx.MustParse1("(i2b x)")}}})
-	decls = append(decls, "(declare-sort Any 0)", "(declare-const AnyNull Any)", "(declare-sort MapV 0)", "(declare-const MapEmpty MapV)", "(declare-sort Event 0)",
-		"(declare-const notifs0 Int)", "(declare-const xcalls0 Int)", "(declare-fun at_notifs0 (Int) Event)", "(declare-fun at_xcalls0 (Int) Event)")
+	decls = append(decls, "(declare-sort Any 0)", "(declare-const AnyNull Any)", "(declare-sort MapV 0)", "(declare-const MapEmpty MapV)", "(declare-sort GhostEv 0)",
+		"(declare-const notifs0 Int)", "(declare-const xcalls0 Int)", "(declare-fun at_notifs0 (Int) GhostEv)", "(declare-fun at_xcalls0 (Int) GhostEv)")
 	for _, name := range e.order {
 		if strings.HasPrefix(name, "list:") {
 			ln := strings.TrimPrefix(name, "list:")
@@ -382,7 +387,7 @@ func (e *Engine) Prelude(sp *spec.File) (decls []string, quants []smt.Quant) {
 	}
 	for _, c := range e.consts {
 		if strings.HasPrefix(c.Name, "notifs!") || strings.HasPrefix(c.Name, "xcalls!") {
-			e.extraFn["logat:"+c.Name] = fmt.Sprintf("(declare-fun at_%s (Int) Event)", c.Name)
+			e.extraFn["logat:"+c.Name] = fmt.Sprintf("(declare-fun at_%s (Int) GhostEv)", c.Name)
 		}
 	}
 	var evk []string
@@ -419,6 +424,7 @@ func (e *Engine) Consts() []smt.Var { return e.consts }
 // ---- frames ------------------------------------------------------------------
 
 type frame struct {
+	parent  *frame
 	fn      *types.Func
 	pkg     *packages.Package
 	info    *types.Info
@@ -429,6 +435,16 @@ type frame struct {
 	escaped int // returns executed in this activation
 	loops   []loopCtx
 	nloops  int // loops met so far in this activation (ordinal)
+}
+
+// onStack reports whether fn is being executed in this frame or one of its callers.
+func (fr *frame) onStack(fn *types.Func) bool {
+	for f := fr; f != nil; f = f.parent {
+		if f.fn == fn {
+			return true
+		}
+	}
+	return false
 }
 
 func (e *Engine) fault(fr *frame, st *State, msg string) {
